@@ -188,6 +188,9 @@ func c04plan(tier string, seed int64) []run.Job {
 		jobs = append(jobs, run.Job{Family: "random", Seed: seed*100000 + 80000 + int64(i), N: per / 4, P: map[string]int{"strat": 1, "maxlen": 8, "inputs": 6, "ends": 1, "memoexpr": 0}})
 		// LeftTrim (all four whitespace modes) and End leaves have a reference meaning: acceptance is judged
 		jobs = append(jobs, run.Job{Family: "random", Seed: seed*100000 + 85000 + int64(i), N: per / 2, P: map[string]int{"strat": 1, "maxlen": 8, "inputs": 6, "trims": 1, "lefttrims": 1, "ends": 1, "memoexpr": 0}})
+		// token-level sequences in which trimming meets optional and alternative tokens (empty matches and tokens on
+		// either side of a whitespace run in one result list)
+		jobs = append(jobs, run.Job{Family: "trimseq", Seed: seed*100000 + 88000 + int64(i), N: per / 2, P: map[string]int{"inputs": 6}})
 		// ... and RightTrim in its never-failing mode around operands that return fresh nodes (several alternatives of different length, Optional)
 		jobs = append(jobs, run.Job{Family: "random", Seed: seed*100000 + 87000 + int64(i), N: per / 2, P: map[string]int{"strat": 1, "maxlen": 8, "inputs": 6, "trims": 1, "lefttrims": 1, "rtrimfresh": 1, "memoexpr": 0}})
 		jobs = append(jobs, run.Job{Family: "random", Seed: seed*100000 + 70000 + int64(i), N: per / 4, P: map[string]int{"strat": 0, "maxlen": 8, "inputs": 6, "trims": 1, "memoexpr": 0}})
